@@ -244,6 +244,14 @@ static int free_step(int until)
   return 1;
 }
 
+/* reproc_run creates its child inside the call: the child's scripted reaction to SIGTERM must be in place before the
+   library can signal it, not only when the first environment step looks the child up */
+static int run_call_handle;
+static void on_fork(int pi)
+{
+  if (run_call_handle > 0 && run_call_handle < MAXH && K->proc[pi].handle == run_call_handle) K->proc[pi].term = pending_term[run_call_handle];
+}
+
 static void on_term_later(int h)
 {
   if (free_mode && h > 0 && h < MAXH && fsch[h].die_at < 0) fsch[h].die_at = K->now + fsch[h].term_delay;
@@ -880,7 +888,9 @@ static long do_call(jv *c, jv **extra)
     const char **argv = strarr(j_get(c, "argv"));
     pending_term[h] = (int) j_int(c, "term", TERM_IGN);
     if (opt_cxx) skip_script("reproc::run(arguments, options) is exercised through C19's mapping check");
+    run_call_handle = h;
     K->in_api = 1; r = reproc_run(argv, op); K->in_api = 0;
+    run_call_handle = 0;
     free(inbuf); free(argv);
     return r;
   }
@@ -901,7 +911,9 @@ static long do_call(jv *c, jv **extra)
       const char **argv = strarr(j_get(c, "argv"));
       sink_h = h;
       pending_term[h] = (int) j_int(c, "term", TERM_IGN);
+      run_call_handle = h;
       K->in_api = 1; r = opt_cxx ? cxx_run(argv, op, out, err) : reproc_run_ex(argv, op, out, err); K->in_api = 0;
+      run_call_handle = 0;
       free(inbuf); free(argv);
     }
     jv *x = j_mkobj();
@@ -1257,7 +1269,7 @@ static void run_script(jv *s)
   jv *cfg = s->a[0];
   sk_env_pull = env_pull;
   sk_on_hang = on_hang;
-  sk_on_term_later = on_term_later;
+  sk_on_term_later = on_term_later; sk_on_fork = on_fork;
   setup(cfg);
   free_mode = (int) j_int(cfg, "free", 0);
   K->gfault_index = (int) j_int(cfg, "gfault", 0);
